@@ -95,6 +95,17 @@ EVENTS = {
               'invalid:zero scale'),
     '!zeroterm': (['unit', 'B1', 'xzt', ['term', [['D:0.0', 1], ['x1', 1]]]],
                   ['x1'], 'invalid:zero scale'),
+    # a derived type whose first factor has a reference unit and whose
+    # second has none (no reference unit can be derived)
+    'BN': (['dtype', 'BN', [['B1', 1], ['N1', -1]], None, None],
+           ['B1', 'N1'], 'valid'),
+    'x1/n1': (['unit', 'BN', 'x1/n1', ['derive', ['x1', 'n1']]],
+              ['BN', 'x1', 'n1'], 'valid'),
+    # terms that denote a plain number
+    '!numterm': (['unit', 'B1', 'xnum', ['term', [['x1', 1], ['x0', -1]]]],
+                 ['x1'], 'invalid:definition of another dimension'),
+    '!numonly': (['unit', 'B1', 'xnum2', ['term', [['i:7', 1]]]], ['B1'],
+                 'invalid:definition of another dimension'),
     # ---- invalid declarations
     '!nmixbad': (['unit', 'N1', 'nmixbad', ['term', [['n1k', 2],
                                                     ['n2k', -1]]]],
